@@ -26,7 +26,7 @@ MANIFEST = {
     "category": "proof",
     "text": ("Ideal (real-arithmetic) instance of the regenerated Angle model, for ALL real inputs: reduce_deg = "
              "sign(x)(|x| - 360 floor(|x|/360)) (strictly inside (-360,360), sign of x, congruent mod 360); Angle(x) / "
-             "radians / ra / sexagesimal forms (sign from any piece, tuple = list = separate arguments); every operator "
+             "radians / ra; sexagesimal: reduce_dms = explicit branch function with the sign of any piece for all real pieces, value formula for canonical pieces, tuple = list = separate arguments; every operator "
              "incl. reflected and in-place = Angle(reduce(a op b)), division by a zero divisor raises ZeroDivisionError; "
              "to_positive in [0,360) congruent; rad, get_ra.  Binary64 instance: range / sign / exactness of the "
              "reduction evaluated by the Coq kernel on an explicit boundary grid (k*360 +- 0..2 ulp, denormals, 1e15, "
@@ -44,23 +44,29 @@ EXPLANATION = ("The Angle model regenerated from /repo is read (a) over the real
                "boundary grid (C03_grid_b64).  All-floats range (DESIGN T3) is not proved; it is covered by the grid "
                "and by the search oracle.")
 CLAUSES = {
-    "reduce_deg(x) = sign(x)*(|x| - 360*floor(|x|/360)), strictly inside (-360,360), sign of x, congruent mod 360":
-        "proved [ideal, all real x and all ints]; proved [B64, finite grid: k*360 +- 0..2 ulp for |k|<=40, denormals, +-1 ulp around 0, 1e15-magnitude, ints]; all floats: unproved (searched)",
-    "Angle(x), Angle(x, radians=True), Angle(x, ra=True) characterised through the reduction":
-        "proved [ideal, all real x]; B64: grid + search",
-    "sexagesimal input: +-(|d|+|m|/60+|s|/3600) reduced, negative iff any piece negative, tuple/list = separate arguments":
-        "proved [ideal, all real pieces]; B64: grid incl. former counterexamples (359,59,59.99999999999999), 25 h RA; search",
-    "binary operators (+ - * / % **), reflected and in-place: result = Angle(reduce(a op b)), operands unchanged":
-        "proved [ideal: + - * / % for Angle/int/float operands, reflected and in-place forms equal the plain ones; ** for exponent-independent dispatch only]; operands unchanged: value semantics of the model (translator alias analysis, trusted) + searched on the implementation (before/after snapshots)",
-    "% follows the documented reading sign(a)*(|a| mod b); number % Angle converts the number to an Angle first":
-        "proved [ideal, b > 0]; searched",
-    "division by an Angle equal to 0 within tolerance / a number equal to 0 raises ZeroDivisionError":
-        "proved [ideal]; searched",
+    "reduce_deg(x) = sign(x)*(|x| - 360*floor(|x|/360)), strictly inside (-360,360), sign of x, congruent mod 360, unique such value":
+        "proved [ideal, all real x and all ints: C03_reduce_deg_ideal + C03_reduction_spec]; proved [B64, FINITE grid: k*360 +- 0..2 ulp and k*360 +- 1 as int for |k|<=40, denormals, +-1 ulp around 0, 1e15-magnitude, ints to 1e15: exact equality with the rational reduction, C03_grid_b64]; all floats: unproved (searched)",
+    "Angle(x), Angle(x, radians=True), Angle(x, ra=True), 1-tuple/1-list, copy, no argument":
+        "proved [ideal, all real x / ints: C03_construct_ideal]; B64: grid (25 h RA etc.) + search",
+    "sexagesimal input: reduce_dms is the explicit branch function of |d|,|m|,|s| with sign -1 iff any piece negative":
+        "proved [ideal, ALL real pieces incl. fractional/overflowing, 64 branches: C03_sexagesimal_ideal part 1]",
+    "sexagesimal value = +-(|d|+|m|/60+|s|/3600) reduced, negative iff any piece negative (incl. (0,-m,s))":
+        "proved [ideal] for whole degrees, whole minutes < 60, seconds < 60 (C03_sexagesimal_ideal part 3); for fractional/overflowing pieces the arithmetic identity on the branch function is unproved (searched; B64 grid of 30 triples incl. (359,59,59.99999999999999), overflow and 1e15 pieces within 2^-36 degree)",
+    "tuple/list forms equal separate arguments; 2 pieces = seconds 0; hours = times 15 reduced again":
+        "proved [ideal, any pieces: C03_sexagesimal_ideal parts 4-5]; B64 grid: bit-identical",
+    "binary operators (+ - * / % **), reflected and in-place: result = new Angle(default tolerance) holding red360(a op b)":
+        "proved [ideal, all real a, b / float y / int z: C03_operators_ideal; ** only for positive base (real power), otherwise searched]",
+    "operands unchanged":
+        "model: operators are pure functions of immutable values (translator alias analysis, trusted); searched on the implementation with before/after snapshots of both operands for every operator x operand-type x plain/in-place",
+    "% follows the documented reading sign(a)*(|a| mod b); number % Angle converts the number to an Angle first (400 % Angle(70) = 40)":
+        "proved [ideal, b > 0]; searched (also b < 0)",
+    "division by an Angle equal to 0 within tolerance / a number equal to 0 raises ZeroDivisionError (also reflected, in-place, %)":
+        "proved [ideal: C03_division_by_zero_ideal]; searched",
     "** with negative base and fractional exponent is complex -> TypeError (not a violation)": "searched (accepted outcome)",
-    "unary -, abs, round; comparisons = comparisons of the values, == within tolerance": "proved [ideal] (round: dispatch only); searched",
-    "to_positive in [0,360), congruent": "proved [ideal, all stored values in (-360,360)]; proved [B64, grid incl. -1e-20, -5e-324]; searched",
-    "rad = deg*pi/180, get_ra = deg/15": "proved [ideal]; searched",
-    "binary64 rounding of the arithmetic (1e-9 degree scaled with magnitude) for all floats": "unproved (searched): needs Flocq monotonicity library (DESIGN T3)",
+    "unary -, abs, round(n); comparisons = comparisons of the values, == within the left operand's tolerance": "proved [ideal: C03_unary_compare_ideal]; searched",
+    "to_positive in [0,360), congruent": "proved [ideal, all stored values in (-360,360): C03_views_ideal]; proved [B64, grid incl. -1e-20, -5e-324, -2^-45, -359.99999999999994]; searched",
+    "rad = deg*pi/180, get_ra = deg/15, float(a) = a()": "proved [ideal: C03_views_ideal]; searched",
+    "binary64 rounding of the arithmetic (1e-9 degree scaled with magnitude) for all floats": "unproved (searched): needs the Flocq monotonicity library (DESIGN T3)",
 }
 
 
@@ -551,22 +557,22 @@ def search(rng, tier, deep):
     Angle = mods["Angle"].Angle
     O = Oracle(Angle)
     big = deep or tier == "thorough"
-    nn = 1500 if big else 150
+    nn = 1500 if big else 400
     for x in gen_numbers(rng, nn):
         O.construct_number(x)
     for x in gen_numbers(rng, nn // 3):
         O.views(x)
     for x in [-1e-20, -5e-324, -1e-300, -1e-14, -2.8e-14, -5.7e-14, -359.99999999999994, 359.99999999999994, -360.0, 360.0]:
         O.views(x)
-    for (d, m, s) in gen_triples(rng, 2000 if big else 150):
+    for (d, m, s) in gen_triples(rng, 2000 if big else 400):
         O.construct_triple(d, m, s)
-    av = gen_angle_values(rng, 600 if big else 60)
-    nv = gen_op_numbers(rng, 600 if big else 60)
+    av = gen_angle_values(rng, 600 if big else 150)
+    nv = gen_op_numbers(rng, 600 if big else 150)
     ops = ["+", "-", "*", "/", "%", "**"]
     combos = [("A", "A"), ("A", "N"), ("N", "A")]
     for op in ops:
         for (ta, tb) in combos:
-            for _ in range(400 if big else 40):
+            for _ in range(400 if big else 120):
                 a = rng.choice(av) if ta == "A" else rng.choice(nv)
                 b = rng.choice(av) if tb == "A" else rng.choice(nv)
                 if op == "**":
@@ -586,9 +592,9 @@ def search(rng, tier, deep):
                     if op == "/" or z == 0.0:
                         O.binop(op, ("A", a), ("A", z), "plain"); O.binop(op, ("A", a), ("A", z), "inplace")
                         O.binop(op, ("N", a), ("A", z), "plain"); O.binop(op, ("N", 7), ("A", z), "plain")
-    for a in av[:(300 if big else 60)]:
+    for a in av[:(300 if big else 120)]:
         O.unary(a)
-    for _ in range(600 if big else 80):
+    for _ in range(600 if big else 200):
         a = rng.choice(av)
         b = rng.choice([rng.choice(av), a, a + 5e-11, a - 5e-11, a + 1.5e-10, math.nextafter(a, 400)])
         if abs(b) >= 360: b = a
